@@ -154,6 +154,20 @@ ROUND9 = {
  "C20": "Plus 1/4 flood cases: more than 10000 + workers targets asked for in one period while every probe is held at the target.",
 }
 
+ROUND10 = {
+ "C01": "Plus 2/6 cases on the real binaries (engine E7): the coordinator process is killed and restarted next to sidecars that keep their targets; every snapshot of the first 25 cycles of the new process must show every target on some shard.",
+ "C03": "Plus 1/3 flood cases (real explorer + real coordinator, one stub shard with unlimited room, 10200-10800 targets at once) and a real-process special case in which a target is added after the coordinator's start-up window (--sd.init-timeout) has passed.",
+ "C04": "In the real-process cases one big target answers its first request with 40 lines and a TCP reset (a failed probe).",
+ "C06": "Real-process special fault with the sidecars in FILE mode: a configuration roll-out (one target removed, one added) reaches a shard while its Prometheus answers 500 to /-/reload.",
+ "C08": "Plus 96 two-cycle cases on one coordinator object in which the same shard reports another hash in both cycles.",
+ "C11": "Every other case pushes a version with one more job while the reload of Prometheus fails, reverts, lets the coordinator push if the hash differs, and compares the file with the coordinator's version when the shard reports its hash.",
+ "C13": "Plus success / connection error / 503 for a target whose assigning update was answered with an error because the reload of Prometheus failed (the sidecar lists it all the same).",
+ "C16": "A global section that holds nothing but external labels, no global section, an empty one and other external labels only must hash alike.",
+ "C18": "Plus two installations of one chart in two namespaces under a manager for all namespaces, judged directly.",
+ "C19": "The hostile replica is absent from the listing in some cycles (the victim changes its position in the list).",
+ "C20": "Failing probes also break off with a TCP reset; plus 2/6 cases on the REAL coordinator binary (--sd.init-timeout 6-8 s): a target that answers 503 for good must be probed again after the start-up window, a target added after it must be assigned.",
+}
+
 NOT_YET = {
 }
 
@@ -182,7 +196,7 @@ def main():
             "evidence_file": "/verif/evidence/%s.json" % pid,
             "replay_cmd_template": "./bin/vcheck replay {path}",
             "engine": c["engine"],
-            "level_claimed": {"category": c["level"], "text": (c["text"] + " " + ROUND8.get(pid, "") + " " + ROUND9.get(pid, "")).strip(), "design_ref": c["ref"]},
+            "level_claimed": {"category": c["level"], "text": (c["text"] + " " + ROUND8.get(pid, "") + " " + ROUND9.get(pid, "") + " " + ROUND10.get(pid, "")).strip(), "design_ref": c["ref"]},
             "level_note": c["note"],
             "technique": c["technique"],
         })
@@ -205,11 +219,11 @@ def main():
              "kind_free_text": "real coordinator + real shard objects, scripted sidecar answers, recorded request log, offline oracles"},
             {"name": "E4 config", "path": "harness/internal/e4", "serves_properties": ["C02", "C11", "C15", "C16"],
              "kind_free_text": "structured configuration and target-group generators; differential against the vendored Prometheus library; child processes for cross-process hashes; real sidecar binary for wiring-dependent behaviour"},
-            {"name": "E5 discovery/explorer", "path": "harness/internal/e5", "serves_properties": ["C17", "C20"],
+            {"name": "E5 discovery/explorer", "path": "harness/internal/e5", "serves_properties": ["C03", "C17", "C20"],
              "kind_free_text": "coordinator-side pipeline wired as cmd/kvass/coordinator.go; loopback HTTP targets; porcupine; race-detector pass"},
             {"name": "E6 kubernetes fake", "path": "harness/internal/e6", "serves_properties": ["C18", "C19"],
              "kind_free_text": "real kubernetes replicas/shard manager on client-go fake clientset; action log as event log; scripted StatefulSet lives with time passing through the verif hook"},
-            {"name": "E7 real processes", "path": "harness/internal/e7", "serves_properties": ["C02", "C03", "C04", "C06"],
+            {"name": "E7 real processes", "path": "harness/internal/e7", "serves_properties": ["C01", "C02", "C03", "C04", "C06", "C20"],
              "kind_free_text": "real kvass coordinator binary (static shard file, own discovery manager, explorer, API) + real kvass sidecar binaries + simulated Prometheus per shard + target farm; cycles counted and faults injected at a reverse proxy in front of the sidecar APIs"},
             {"name": "E2 closed loop", "path": "harness/internal/e2", "serves_properties": ["C01", "C03", "C05", "C06", "C07", "C08", "C19"],
              "kind_free_text": "real coordinator + real sidecars over loopback HTTP, simulated Prometheus/StatefulSet/target farm, stepped cycles, fault wrappers; K8s mode: the simulated pods are listed and scaled by the real Kubernetes managers on a client-go fake; soak mode in a child process with a lowered descriptor limit"},
